@@ -242,6 +242,7 @@ def _worker(args):
         t0 = time.time()
         signal.signal(signal.SIGALRM, _alarm)
         signal.alarm(alarm_s)
+        harness = None
         try:
             with quiet():
                 res = mod.execute(case)
@@ -249,14 +250,17 @@ def _worker(args):
             res = {"failures": [fail(mod.PROP + ".hang.alarm", -1, "run exceeded %d s wall clock" % alarm_s)],
                    "stats": {}, "log": ["ALARM"]}
         except HarnessError as e:
-            signal.alarm(0)
-            return {"harness_error": str(e), "index": i, "seed": seed}
-        except Exception as e:   # anything escaping execute() is the harness's fault
-            signal.alarm(0)
-            return {"harness_error": "".join(traceback.format_exception(type(e), e, e.__traceback__)),
-                    "index": i, "seed": seed}
+            harness = str(e)
+        except Exception as e:   # anything else escaping execute() is the harness's fault ...
+            if type(e).__name__ == "RefUndefined":
+                # ... except a generated point outside the reference's domain: the run is void (counted)
+                res = {"failures": [], "stats": {"reference_undefined": 1}, "log": ["REF-UNDEFINED"]}
+            else:
+                harness = "".join(traceback.format_exception(type(e), e, e.__traceback__))
         finally:
             signal.alarm(0)
+        if harness is not None:
+            return {"harness_error": harness, "index": i, "seed": seed}
         rec = {"index": i, "seed": seed, "wall": time.time() - t0,
                "failures": res.get("failures", []),
                "stats": res.get("stats", {}),
